@@ -149,6 +149,8 @@ variable (r : Nat) (p : Pkt) (w : Why) (res : Ret) (op : Option Pkt)
 @[simp, grind =] theorem result_leaving_ctx : CPc.result (.leaving 0 .ctx) = none := rfl
 @[simp, grind =] theorem result_leaving_closed : CPc.result (.leaving 0 .closed) = none := rfl
 @[simp, grind =] theorem result_leaving_txfail : CPc.result (.leaving 0 .txfail) = none := rfl
+@[simp, grind =] theorem result_leaving_txerr : CPc.result (.leaving 0 .txerr) = none := rfl
+@[simp, grind =] theorem result_returned_writeErr : CPc.result (.returned .writeErr) = none := rfl
 @[simp, grind =] theorem result_leaving_nil : CPc.result (.leaving 0 (.resp none)) = none := rfl
 @[simp, grind =] theorem result_returned_noResp : CPc.result (.returned .noResp) = none := rfl
 @[simp, grind =] theorem result_returned_inUse : CPc.result (.returned .inUse) = none := rfl
